@@ -57,13 +57,43 @@ def distinct_sigs(sc):
 
 
 def worker(payload):
-    from common import run_driver
-
     seed, n, static_only = payload
     rng = random.Random(seed)
+    batch = [gen_scenario(rng, static_only=static_only) for _ in range(n)]
+    return evaluate_batch(batch, rng, static_only)
+
+
+def directed_from_levels(diffs):
+    """search for a failing input around a broken levels correspondence: one single-position method per
+    registered type of the disagreeing TypeMap, looked up (directly and through every continuation key) for the
+    disagreeing class, and the same in the second of two positions"""
+    from world import World
+
+    batch = []
+    for d in diffs:
+        if d.get("layer") != "C" or "types" not in d:
+            continue
+        w = World(d["world"])
+        types, q = d["types"], d["query"]
+        for two in (False, True):
+            meths = []
+            for i, t in enumerate(types):
+                params = [["p", 0, ["cls", 0]], ["p", 1, t]] if two else [["p", 0, t]]
+                meths.append({"id": i, "code": 100 + i, "params": params, "reqPos": len(params), "maxPos": len(params), "reqNames": [], "prio": 0, "tb": 0})
+            key = [["p", 0, q], ["p", 1, q]] if two else [["p", 0, q]]
+            ops = [["reg", i] for i in range(len(meths))] + [["get", None, 0]] + [["get", 100 + i, 0] for i in range(len(meths))]
+            sc = {"meths": meths, "keys_desc": [key], "rtypes_desc": [["cls", c] for c in range(w.n)], "ops": ops, "tyrank_desc": list(types), "hrank": list(range(len(meths)))}
+            batch.append((w, sc))
+    if not batch:
+        return None
+    return evaluate_batch(batch, random.Random(0), True)
+
+
+def evaluate_batch(batch, rng, static_only):
+    from common import run_driver
+
     scs, impls, keep = [], [], []
-    for _ in range(n):
-        w, sc = gen_scenario(rng, static_only=static_only)
+    for w, sc in batch:
         impls.append(run_impl(w, sc))
         scs.append(to_model(w, sc))
         keep.append((w, sc))
@@ -76,7 +106,14 @@ def worker(payload):
     def bump(k):
         out["hist"][k] = out["hist"].get(k, 0) + 1
 
+    predicted = [True]
+
     def known(o, key, witness):
+        if not predicted[0]:
+            # inside a known-finding class the model must predict the real answer; a failure the model does not
+            # predict is a new violation, not the listed one
+            o["viol"].append({"law": f"fails inside class {key} but differently from the model", **witness})
+            return
         e = o["known"].setdefault(key, {"count": 0, "witness": witness})
         e["count"] += 1
 
@@ -100,10 +137,15 @@ def worker(payload):
                 ma["r"] = info["res"]
                 ma["nres"] = info["nres"]
             bb = {k: v for k, v in b.items() if k != "npred" and (k != "nres" or "nres" in ma)}
+            predicted[0] = True
+            stop_after = False
             if ma != bb:
                 out["corr"].append({"layer": "D", "op_index": j, "op": op, "model": ma, "impl": b, "scenario": desc})
                 corr_ok = False
-                break
+                predicted[0] = False
+                stop_after = True
+                if op[0] != "get":
+                    break
             if op[0] != "get":
                 if seen_get:
                     reg_after_get = True
@@ -157,6 +199,8 @@ def worker(payload):
                         known(o2, "D18:continuation-below-tied-rank", wit)
                     else:
                         o2["viol"].append({"law": "documented priority/specificity/recency rule", **wit, "scenario": desc})
+            if stop_after:
+                break
         # ---- C06: other registration order / set orders give the same outcomes (static, distinct signatures)
         if corr_ok and static_only and distinct_sigs(sc):
             sc2 = permuted(sc, rng)
